@@ -63,11 +63,13 @@ class Check(BaseCheck):
             for i in range(16):
                 specs.append({'campaign': 'pairs', 'pool': 50, 'seed': seed, 'i': i, 'triples': 6000})
             specs.append({'campaign': 'instants', 'seed': seed, 'n': 600})
+            specs.append({'campaign': 'timezones', 'seed': seed})
         else:
             for i in range(64):
                 specs.append({'campaign': 'pairs', 'pool': 110, 'seed': seed, 'i': i, 'triples': 200000})
             for i in range(8):
                 specs.append({'campaign': 'instants', 'seed': seed, 'i': i, 'n': 8000})
+                specs.append({'campaign': 'timezones', 'seed': seed, 'i': i})
         return specs
 
     def run(self, spec, rec):
@@ -96,6 +98,8 @@ class Check(BaseCheck):
                 self.sentinels(rec)
             elif spec['campaign'] == 'instants':
                 self.instants(spec, rec)
+            elif spec['campaign'] == 'timezones':
+                self.timezones(spec, rec)
             else:
                 self.pairs(spec, rec)
         finally:
@@ -259,6 +263,37 @@ class Check(BaseCheck):
                             rec.violation('C07/law:transitivity-of-equality:instants-closer-than-the-serial-resolves', a=vals[i], b=vals[j], c=vals[k])
             rec.nt(('instants', a.isoformat(), b.isoformat()))
             rec.count('instant_triples')
+
+    def timezones(self, spec, rec):
+        """dates order by their serial wherever the process runs: the worker's time zone is switched (POSIX TZ rules, no zone database needed)
+        and dates are ranked against the numbers that are their serials, against each other across daylight-saving changes, and against text"""
+        import os, time
+        rnd = self.rng(spec)
+        old = os.environ.get('TZ')
+        real = rec.violation
+        T = datetime.datetime
+        try:
+            for z in ('EST5EDT,M3.2.0,M11.1.0', 'CET-1CEST,M3.5.0,M10.5.0/3', 'AEST-10AEDT,M10.1.0,M4.1.0/3', 'IST-5:30'):
+                os.environ['TZ'] = z
+                time.tzset()
+                rec.violation = lambda key, _z=z, **w: real(key + ':process-time-zone-not-UTC', process_time_zone=_z, **w)
+                vals = []
+                for (y, mo, d) in ((2021, 7, 1), (2021, 3, 28), (2021, 3, 14), (2021, 11, 7), (2024, 1, 1), (1999, 12, 31), (rnd.randint(1901, 9998), rnd.randint(1, 12), rnd.randint(1, 28))):
+                    day = T(y, mo, d)
+                    sn = day.toordinal() - datetime.date(1899, 12, 30).toordinal()
+                    vals += [day, sn, sn + 0.0625, day + datetime.timedelta(hours=1, minutes=30), day + datetime.timedelta(hours=2, minutes=30), day + datetime.timedelta(hours=3),
+                             sn - 0.01, 'a', True]
+                for a in vals:
+                    for b in rnd.sample(vals, 12):
+                        self.judge_pair(rec, a, b, 'var')
+                rec.count('timezones_exercised')
+        finally:
+            rec.violation = real
+            if old is None:
+                os.environ.pop('TZ', None)
+            else:
+                os.environ['TZ'] = old
+            time.tzset()
 
     def sentinels(self, rec):
         T = datetime.datetime
